@@ -173,6 +173,31 @@ def run(ctx):
                                 res["oracle_failures"].append(f_)
         res["hist"]["zones"] = res["hist"].get("zones", 0) + 1
 
+    # ---- frames that hold SEVERAL clock changes, in both orders (autumn then spring: mid-year to mid-year in the north, a calendar
+    # year in the south; spring then autumn; two years): the mapping back to the real clock must handle every order of operations
+    long_frames = [("America/Chicago", "2019-07-01", 366), ("America/Chicago", "2019-01-01", 365), ("Australia/Sydney", "2019-01-01", 365),
+                   ("Europe/Berlin", "2019-10-20", 170)] + ([("America/Chicago", "2019-01-01", 731), ("Australia/Sydney", "2018-07-01", 365),
+                                                            ("America/Santiago", "2019-01-01", 365)] if thorough else [])
+    for zone, d0, days in long_frames:
+        for with_obs in (True, False):
+            try:
+                df = hourly_frame(zone, d0, days)
+                rd = HourlyReportingData(df if with_obs else df[["temperature"]], is_electricity_data=True)
+                m = HourlyModel.from_json(hm_json)
+                m.baseline_timezone = rd.tz
+                m.disqualification = []
+                res["evaluations"] += 1
+                o = m.predict(rd)
+                okidx = o.index.equals(rd.df.index)
+                fin = bool(np.isfinite(o["predicted"].to_numpy(dtype=float)).all())
+                if not okidx or not fin:
+                    res["oracle_failures"].append(dict(clause="hourly_predict_index_and_finite", zone=zone, first_local_date=d0, days=days,
+                                                       with_observed=with_obs, index_equal=okidx, all_finite=fin, rows_in=len(rd.df), rows_out=len(o)))
+            except Exception as e:  # noqa
+                res["oracle_failures"].append(dict(clause="hourly_predict_raises", zone=zone, first_local_date=d0, days=days, with_observed=with_obs,
+                                                   clock_changes_in_frame="several", error=f"{type(e).__name__}: {str(e)[:100]}"))
+        sigs.add(("long_frame", zone, days))
+
     # ---- daily / billing through the public API: gaps, NaN days, random zones
     dsettings = DailyModel().settings.model_dump()
     bsettings = BillingModel().settings.model_dump()
